@@ -77,7 +77,7 @@ def check_helpers(ctx):
                   np.array([(i * 7 + 3) % 11 + 1 for i in range(n)], dtype=float),
                   np.arange(10, 10 + n, dtype=np.int64)]
         for x in arrays:
-            fills = fills_f if x.dtype.kind == 'f' else fills_i
+            fills = (fills_f + [0, -9, np.int64(7), True]) if x.dtype.kind == 'f' else fills_i      # an integer fill for float data is that number
             for p in range(-n - 1, n + 2):
                 for fill in fills:
                     idx += 1
